@@ -131,11 +131,19 @@ func verifRURelName(r int) string {
 
 type verifRRec struct{ ot, oid, rel, usr, cond int }
 
+// param forkusers=1: the engine forks on each record's user (concrete user strings on every path; the
+// userset classification decodes the user string rune by rune, which is costly on a merged string).
 func verifRSymRec(name string) verifRRec {
-	return verifRRec{
+	r := verifRRec{
 		ot: vt.Pick(name+".ot", 2), oid: vt.Pick(name+".oid", 2), rel: vt.Pick(name+".rel", 2),
-		usr: vt.Pick(name+".usr", verifRUsers), cond: vt.Pick(name+".cond", 3),
+		cond: vt.Pick(name+".cond", 3),
 	}
+	if vt.ParamInt("forkusers", 0) != 0 {
+		r.usr = vt.Choose(name+".usr", verifRUsers)
+	} else {
+		r.usr = vt.Pick(name+".usr", verifRUsers)
+	}
+	return r
 }
 
 func (r verifRRec) sameKey(x verifRRec) bool {
@@ -253,6 +261,95 @@ func verifRCompare(recs []verifRRec, want []bool, got []*openfgav1.Tuple, dupMsg
 	}
 }
 
+// verifRSelected is the list of records an iterator of this backend is going to yield (its state).
+// That the iterator then yields records[i].AsTuple() one by one, in order, followed by ErrIteratorDone,
+// and that AsTuple renders object, relation, user and condition unchanged is VerifK13Iterator.
+func verifRSelected(it storage.TupleIterator) []*storage.TupleRecord {
+	si, ok := it.(*staticIterator)
+	vt.Assert(ok && si != nil, "memory backend returned an iterator that is not a staticIterator")
+	if !ok || si == nil {
+		return nil
+	}
+	vt.Assert(si.continuationToken == "", "unpaginated read carries a continuation token")
+	return si.records
+}
+
+// verifRCompareRecs: got is, as a multiset of record pointers, exactly the stored records marked in want.
+func verifRCompareRecs(stored []*storage.TupleRecord, want []bool, got []*storage.TupleRecord, dupMsg, missMsg, extraMsg string) {
+	total := 0
+	for i, s := range stored {
+		cnt := 0
+		for _, g := range got {
+			if g == s {
+				cnt++
+			}
+		}
+		if want[i] {
+			total++
+			vt.Assert(cnt >= 1, missMsg)
+			vt.Assert(cnt <= 1, dupMsg)
+		} else {
+			vt.Assert(cnt == 0, extraMsg)
+		}
+	}
+	vt.Assert(len(got) == total, "the result holds something that is not a record of the store read from")
+}
+
+// verifRCheck compares the outcome of an iterator-returning read with the reference selection.
+// param drain=1: consume the iterator through Next and compare tuple contents (small bounds);
+// drain=0: compare the selected record pointers (the iterator protocol is VerifK13Iterator).
+func verifRCheck(ds *MemoryBackend, recs []verifRRec, want []bool, it storage.TupleIterator, sorted bool, api string) {
+	nonEmpty := false
+	if vt.ParamInt("drain", 0) != 0 {
+		got := verifRDrain(it, 2*len(recs))
+		vt.Reach("compared")
+		verifRCompare(recs, want, got, api+" returned a tuple twice", api+" omitted a tuple that satisfies the filter", api+" returned a tuple that does not satisfy the filter")
+		for i := 1; sorted && i < len(got); i++ {
+			vt.Assert(got[i-1].GetKey().GetObject() <= got[i].GetKey().GetObject(), api+" results are not in ascending object order")
+		}
+		nonEmpty = len(got) > 0
+	} else {
+		got := verifRSelected(it)
+		vt.Reach("compared")
+		verifRCompareRecs(ds.tuples["s"], want, got, api+" returned a tuple twice", api+" omitted a tuple that satisfies the filter", api+" returned a tuple that does not satisfy the filter")
+		for i := 1; sorted && i < len(got); i++ {
+			vt.Assert(got[i-1].ObjectID <= got[i].ObjectID, api+" results are not in ascending object order")
+		}
+		nonEmpty = len(got) > 0
+	}
+	if nonEmpty {
+		vt.Reach("non-empty")
+	}
+}
+
+// K13 iterator protocol and AsTuple round trip: a staticIterator over n <= N symbolic records yields,
+// through Head/Next, exactly the records' renderings in order and then ErrIteratorDone; ToArray likewise.
+func VerifK13Iterator() {
+	_, recs := verifRStore()
+	var list []*storage.TupleRecord
+	for _, r := range recs {
+		list = append(list, r.record())
+	}
+	ctx := context.Background()
+	it := &staticIterator{records: append([]*storage.TupleRecord(nil), list...)}
+	for i := 0; i < len(recs); i++ {
+		h, herr := it.Head(ctx)
+		vt.Assert(herr == nil && recs[i].isTuple(h), "Head is not the next record")
+		t, err := it.Next(ctx)
+		vt.Assert(err == nil && recs[i].isTuple(t), "Next does not yield the records in order, unchanged")
+	}
+	vt.Reach("drained")
+	_, err := it.Next(ctx)
+	vt.Assert(errors.Is(err, storage.ErrIteratorDone), "Next after the last record is not ErrIteratorDone")
+	_, err = it.Head(ctx)
+	vt.Assert(errors.Is(err, storage.ErrIteratorDone), "Head after the last record is not ErrIteratorDone")
+	all, tok, err := (&staticIterator{records: list}).ToArray(ctx)
+	vt.Assert(err == nil && tok == "" && len(all) == len(recs), "ToArray does not return every record")
+	for i := 0; i < len(recs) && i < len(all); i++ {
+		vt.Assert(recs[i].isTuple(all[i]), "ToArray does not return the records in order, unchanged")
+	}
+}
+
 // ---- ReadFilter (Read, ReadPage, ReadUserTuple) ----
 
 type verifRFilter struct {
@@ -267,9 +364,16 @@ func verifRSymFilter(maxConds int) verifRFilter {
 	// (the condition list is drawn first: input names must be built while the path guard is literally true)
 	conds, condNames := verifRConds(maxConds)
 	x := verifRFilter{
-		okind: vt.Pick("f.okind", 3), ot: vt.Pick("f.ot", 2), oid: vt.Pick("f.oid", 2),
+		ot: vt.Pick("f.ot", 2), oid: vt.Pick("f.oid", 2),
 		rkind: vt.Pick("f.rkind", 2), rel: vt.Pick("f.rel", 2),
-		ukind: vt.Pick("f.ukind", 3), usr: vt.Pick("f.usr", verifRUsers), ut: vt.Pick("f.ut", 3),
+		usr: vt.Pick("f.usr", verifRUsers), ut: vt.Pick("f.ut", 3),
+	}
+	// param forkkinds=1: fork on which of object / user is absent, type-only or complete (the filter
+	// strings then have concrete lengths); content stays symbolic
+	if vt.ParamInt("forkkinds", 0) != 0 {
+		x.okind, x.ukind = vt.Choose("f.okind", 3), vt.Choose("f.ukind", 3)
+	} else {
+		x.okind, x.ukind = vt.Pick("f.okind", 3), vt.Pick("f.ukind", 3)
 	}
 	x.conds, x.f.Conditions = conds, condNames
 	if x.okind == 1 {
@@ -324,30 +428,28 @@ func VerifK13Read() {
 	} else {
 		vt.Assume(x.unconstrained() && len(x.conds) > 0)
 	}
-	var got []*openfgav1.Tuple
+	want := make([]bool, len(recs))
+	for i, r := range recs {
+		want[i] = x.matches(r)
+	}
 	if vt.ParamInt("api", 0) == 0 {
 		it, err := ds.Read(context.Background(), "s", x.f, storage.ReadOptions{})
 		vt.Assert(err == nil, "Read failed")
 		if err != nil {
 			return
 		}
-		got = verifRDrain(it, 2*len(recs))
-	} else {
-		page, tok, err := ds.ReadPage(context.Background(), "s", x.f, storage.ReadPageOptions{Pagination: storage.PaginationOptions{PageSize: 10}})
-		vt.Assert(err == nil, "ReadPage failed")
-		vt.Assert(tok == "", "ReadPage issued a continuation token although the page holds everything")
-		got = page
+		verifRCheck(ds, recs, want, it, false, "Read")
+		return
 	}
-	want := make([]bool, len(recs))
-	for i, r := range recs {
-		want[i] = x.matches(r)
-	}
+	page, tok, err := ds.ReadPage(context.Background(), "s", x.f, storage.ReadPageOptions{Pagination: storage.PaginationOptions{PageSize: 10}})
+	vt.Assert(err == nil, "ReadPage failed")
+	vt.Assert(tok == "", "ReadPage issued a continuation token although the page holds everything")
 	vt.Reach("compared")
-	verifRCompare(recs, want, got,
-		"Read returned a tuple twice",
-		"Read omitted a tuple that satisfies the filter",
-		"Read returned a tuple that does not satisfy the filter")
-	if len(got) > 0 {
+	verifRCompare(recs, want, page,
+		"ReadPage returned a tuple twice",
+		"ReadPage omitted a tuple that satisfies the filter",
+		"ReadPage returned a tuple that does not satisfy the filter")
+	if len(page) > 0 {
 		vt.Reach("non-empty")
 	}
 }
@@ -452,7 +554,6 @@ func VerifK13ReadUsersetTuples() {
 	if err != nil {
 		return
 	}
-	got := verifRDrain(it, 2*len(recs))
 	want := make([]bool, len(recs))
 	for i, r := range recs {
 		w := r.ot == ot && r.oid == oid && r.rel == rel && (verifRURel(r.usr) != 0 || verifRUWild(r.usr))
@@ -467,14 +568,7 @@ func VerifK13ReadUsersetTuples() {
 		}
 		want[i] = w && verifRCondOK(conds, r.cond)
 	}
-	vt.Reach("compared")
-	verifRCompare(recs, want, got,
-		"ReadUsersetTuples returned a tuple twice",
-		"ReadUsersetTuples omitted a userset tuple that satisfies the filter",
-		"ReadUsersetTuples returned a tuple that does not satisfy the filter")
-	if len(got) > 0 {
-		vt.Reach("non-empty")
-	}
+	verifRCheck(ds, recs, want, it, false, "ReadUsersetTuples")
 }
 
 // ---- ReadStartingWithUser ----
@@ -560,7 +654,6 @@ func VerifK13ReadStartingWithUser() {
 	if err != nil {
 		return
 	}
-	got := verifRDrain(it, 2*len(recs))
 	want := make([]bool, len(recs))
 	for i, r := range recs {
 		w := r.ot == ot && r.rel == rel
@@ -575,15 +668,5 @@ func VerifK13ReadStartingWithUser() {
 		}
 		want[i] = w && listed && verifRCondOK(conds, r.cond)
 	}
-	vt.Reach("compared")
-	verifRCompare(recs, want, got,
-		"ReadStartingWithUser returned a tuple twice",
-		"ReadStartingWithUser omitted a tuple that satisfies the filter",
-		"ReadStartingWithUser returned a tuple that does not satisfy the filter")
-	for i := 1; i < len(got); i++ {
-		vt.Assert(got[i-1].GetKey().GetObject() <= got[i].GetKey().GetObject(), "ReadStartingWithUser results are not in ascending object order")
-	}
-	if len(got) > 0 {
-		vt.Reach("non-empty")
-	}
+	verifRCheck(ds, recs, want, it, true, "ReadStartingWithUser")
 }
